@@ -37,13 +37,68 @@ type Input struct {
 }
 
 func NewInput(name string, n int, nsw int) *Input {
-	in := &Input{S: rt.SymString(name, n)}
+	in := &Input{}
+	if long.filler != "" {
+		in.S = longString(name, n)
+	} else {
+		in.S = rt.SymString(name, n)
+	}
 	in.R = []rune(in.S)
 	in.Sw = make([]bool, NSw)
 	for i := 0; i < nsw && i < NSw; i++ {
 		in.Sw[i] = rt.Bool(name + "sw" + string(rune('0'+i)))
 	}
 	return in
+}
+
+// Long inputs: n runes of which all but (at most) two are a concrete filler cycle; the runes at
+// the hole positions are arbitrary. Lets the same harnesses reach lengths where offsets and
+// token counts cross the 2^8 and 2^16 boundaries of a narrow parser instantiation, wide trees
+// and deep nesting, while the solver still decides the property for every value of the holes.
+var long struct {
+	filler string
+	holes  [2]int
+}
+
+// SetLong switches NewInput to long mode (h < 0: no hole). ClearLong switches back.
+func SetLong(filler string, h1, h2 int) {
+	long.filler, long.holes = filler, [2]int{h1, h2}
+	ref.ExtraSteps = 1 << 28 // the reference's step budget is sized for short inputs
+}
+
+func ClearLong() {
+	long.filler = ""
+	ref.ExtraSteps = 0
+}
+
+func repeatCycle(cycle []rune, from, to int) string {
+	// runes cycle[i % len] for from <= i < to; built from whole cycles where possible
+	if to <= from {
+		return ""
+	}
+	k := len(cycle)
+	out := make([]rune, 0, to-from)
+	for i := from; i < to; i++ {
+		out = append(out, cycle[i%k])
+	}
+	return string(out)
+}
+
+func longString(name string, n int) string {
+	cycle := []rune(long.filler)
+	hs := long.holes
+	if hs[0] > hs[1] {
+		hs[0], hs[1] = hs[1], hs[0]
+	}
+	s, at := "", 0
+	for _, h := range hs {
+		if h < at || h >= n {
+			continue
+		}
+		s += repeatCycle(cycle, at, h) + rt.SymString(name+"h"+itoa(h), 1)
+		at = h + 1
+	}
+	return s + repeatCycle(cycle, at, n)
 }
 
 func start(mk func() Parser, in *Input, memo bool, size int) Parser {
@@ -323,7 +378,7 @@ func C07(g *ref.Grammar, def func() Parser, names []string, mks []func() Parser,
 		if exact[i] {
 			rt.Assert("trace-count/"+names[i], len(tr) == len(r.Reached))
 			rt.Assert("trace/"+names[i], sameEvs(tr, r.Reached, false))
-		} else {
+		} else if n <= 16 { // quadratic in n: not run on the long-input layer (the verdict is)
 			for _, ev := range tr {
 				okText := ev.Text == ""
 				for b := 0; b <= n; b++ {
